@@ -25,8 +25,11 @@ theorem N1_DS_DC__DS_DEGL (hc : c * c = 2) (h2 : (2:K) ≠ 0)
     (D : Nat → Nat → K) (F0 : M3 K) (f0 f1 f2 : K) (l0 l1 l2 : K) (s : Nat → K)  :
     upper (lamS (dg f0 f1 f2) (M3.ofMandel c [s 0, s 1, s 2]) (dg l0 l1 l2) (M3.ofMandel c (act (Gen.N1_DS_DC__DS_DEGL_r c c3 fn D (tensv F0) (tensv (dg f0 f1 f2)) s) (M3.mandel1 (dC (dg f0 f1 f2) (dg l0 l1 l2))))))
       = upper (lamS (dg f0 f1 f2) (M3.ofMandel c [s 0, s 1, s 2]) (dg l0 l1 l2) (M3.ofMandel c (act (rowsOf D i3 i3) (M3.mandel1 (dE (dg f0 f1 f2) (dg l0 l1 l2)))))) := by
-  have hc0 : c ≠ 0 := c_ne_zero hc h2
-  c23_rat0 hc
+  have key : (act (Gen.N1_DS_DC__DS_DEGL_r c c3 fn D (tensv F0) (tensv (dg f0 f1 f2)) s) (M3.mandel1 (dC (dg f0 f1 f2) (dg l0 l1 l2))))
+      = (act (rowsOf D i3 i3) (M3.mandel1 (dE (dg f0 f1 f2) (dg l0 l1 l2)))) := by
+    have hc0 : c ≠ 0 := c_ne_zero hc h2
+    c23_rat0 hc
+  rw [key]
 
 /-- `DS_DEGL ← DS_DC` (1D): along every variation `δF = L F` the converted operator, applied to the
 rate of its kinematic variable, gives the rate of the second Piola–Kirchhoff stress that reproduces the same Lie derivative of
@@ -35,8 +38,11 @@ theorem N1_DS_DEGL__DS_DC (hc : c * c = 2) (h2 : (2:K) ≠ 0)
     (D : Nat → Nat → K) (F0 : M3 K) (f0 f1 f2 : K) (l0 l1 l2 : K) (s : Nat → K)  :
     upper (lamS (dg f0 f1 f2) (M3.ofMandel c [s 0, s 1, s 2]) (dg l0 l1 l2) (M3.ofMandel c (act (Gen.N1_DS_DEGL__DS_DC_r c c3 fn D (tensv F0) (tensv (dg f0 f1 f2)) s) (M3.mandel1 (dE (dg f0 f1 f2) (dg l0 l1 l2))))))
       = upper (lamS (dg f0 f1 f2) (M3.ofMandel c [s 0, s 1, s 2]) (dg l0 l1 l2) (M3.ofMandel c (act (rowsOf D i3 i3) (M3.mandel1 (dC (dg f0 f1 f2) (dg l0 l1 l2)))))) := by
-  have hc0 : c ≠ 0 := c_ne_zero hc h2
-  c23_rat0 hc
+  have key : (act (Gen.N1_DS_DEGL__DS_DC_r c c3 fn D (tensv F0) (tensv (dg f0 f1 f2)) s) (M3.mandel1 (dE (dg f0 f1 f2) (dg l0 l1 l2))))
+      = (act (rowsOf D i3 i3) (M3.mandel1 (dC (dg f0 f1 f2) (dg l0 l1 l2)))) := by
+    have hc0 : c ≠ 0 := c_ne_zero hc h2
+    c23_rat0 hc
+  rw [key]
 
 /-- `SPATIAL_MODULI ← DS_DEGL` (1D): along every variation `δF = L F` the converted operator, applied to the
 rate of its kinematic variable, gives the rate of the Lie derivative of the Kirchhoff stress that reproduces the same Lie derivative of
@@ -77,8 +83,11 @@ theorem N1_DS_DF__DS_DC (hc : c * c = 2) (h2 : (2:K) ≠ 0)
     (D : Nat → Nat → K) (F0 : M3 K) (f0 f1 f2 : K) (l0 l1 l2 : K) (s : Nat → K)  :
     upper (lamS (dg f0 f1 f2) (M3.ofMandel c [s 0, s 1, s 2]) (dg l0 l1 l2) (M3.ofMandel c (act (Gen.N1_DS_DF__DS_DC_r c c3 fn D (tensv F0) (tensv (dg f0 f1 f2)) s) (M3.tens1 ((dg l0 l1 l2) * (dg f0 f1 f2))))))
       = upper (lamS (dg f0 f1 f2) (M3.ofMandel c [s 0, s 1, s 2]) (dg l0 l1 l2) (M3.ofMandel c (act (rowsOf D i3 i3) (M3.mandel1 (dC (dg f0 f1 f2) (dg l0 l1 l2)))))) := by
-  have hc0 : c ≠ 0 := c_ne_zero hc h2
-  c23_rat0 hc
+  have key : (act (Gen.N1_DS_DF__DS_DC_r c c3 fn D (tensv F0) (tensv (dg f0 f1 f2)) s) (M3.tens1 ((dg l0 l1 l2) * (dg f0 f1 f2))))
+      = (act (rowsOf D i3 i3) (M3.mandel1 (dC (dg f0 f1 f2) (dg l0 l1 l2)))) := by
+    have hc0 : c ≠ 0 := c_ne_zero hc h2
+    c23_rat0 hc
+  rw [key]
 
 /-- `DS_DF ← DS_DEGL` (1D): along every variation `δF = L F` the converted operator, applied to the
 rate of its kinematic variable, gives the rate of the second Piola–Kirchhoff stress that reproduces the same Lie derivative of
@@ -87,8 +96,11 @@ theorem N1_DS_DF__DS_DEGL (hc : c * c = 2) (h2 : (2:K) ≠ 0)
     (D : Nat → Nat → K) (F0 : M3 K) (f0 f1 f2 : K) (l0 l1 l2 : K) (s : Nat → K)  :
     upper (lamS (dg f0 f1 f2) (M3.ofMandel c [s 0, s 1, s 2]) (dg l0 l1 l2) (M3.ofMandel c (act (Gen.N1_DS_DF__DS_DEGL_r c c3 fn D (tensv F0) (tensv (dg f0 f1 f2)) s) (M3.tens1 ((dg l0 l1 l2) * (dg f0 f1 f2))))))
       = upper (lamS (dg f0 f1 f2) (M3.ofMandel c [s 0, s 1, s 2]) (dg l0 l1 l2) (M3.ofMandel c (act (rowsOf D i3 i3) (M3.mandel1 (dE (dg f0 f1 f2) (dg l0 l1 l2)))))) := by
-  have hc0 : c ≠ 0 := c_ne_zero hc h2
-  c23_rat0 hc
+  have key : (act (Gen.N1_DS_DF__DS_DEGL_r c c3 fn D (tensv F0) (tensv (dg f0 f1 f2)) s) (M3.tens1 ((dg l0 l1 l2) * (dg f0 f1 f2))))
+      = (act (rowsOf D i3 i3) (M3.mandel1 (dE (dg f0 f1 f2) (dg l0 l1 l2)))) := by
+    have hc0 : c ≠ 0 := c_ne_zero hc h2
+    c23_rat0 hc
+  rw [key]
 
 /-- `ABAQUS ← SPATIAL_MODULI` (1D): along every variation `δF = L F` the converted operator, applied to the
 rate of its kinematic variable, gives the rate of the Jaumann rate of the Kirchhoff stress / J that reproduces the same Lie derivative of
@@ -172,8 +184,11 @@ theorem N1_DSIG_DDF__DSIG_DF (hc : c * c = 2) (h2 : (2:K) ≠ 0)
     (D : Nat → Nat → K) (g0 g1 g2 d0 d1 d2 : K) (l0 l1 l2 : K) (s : Nat → K)  :
     upper (lamSig ((dg d0 d1 d2) * (dg g0 g1 g2)) (M3.ofMandel c [s 0, s 1, s 2]) (dg l0 l1 l2) (M3.ofMandel c (act (Gen.N1_DSIG_DDF__DSIG_DF_r c c3 fn D (tensv (dg g0 g1 g2)) (tensv ((dg d0 d1 d2) * (dg g0 g1 g2))) s) (M3.tens1 ((dg l0 l1 l2) * (dg d0 d1 d2))))))
       = upper (lamSig ((dg d0 d1 d2) * (dg g0 g1 g2)) (M3.ofMandel c [s 0, s 1, s 2]) (dg l0 l1 l2) (M3.ofMandel c (act (rowsOf D i3 i3) (M3.tens1 ((dg l0 l1 l2) * ((dg d0 d1 d2) * (dg g0 g1 g2))))))) := by
-  have hc0 : c ≠ 0 := c_ne_zero hc h2
-  c23_rat0 hc
+  have key : (act (Gen.N1_DSIG_DDF__DSIG_DF_r c c3 fn D (tensv (dg g0 g1 g2)) (tensv ((dg d0 d1 d2) * (dg g0 g1 g2))) s) (M3.tens1 ((dg l0 l1 l2) * (dg d0 d1 d2))))
+      = (act (rowsOf D i3 i3) (M3.tens1 ((dg l0 l1 l2) * ((dg d0 d1 d2) * (dg g0 g1 g2))))) := by
+    have hc0 : c ≠ 0 := c_ne_zero hc h2
+    c23_rat0 hc
+  rw [key]
 
 /-- `DSIG_DF ← DSIG_DDF` (1D): along every variation `δF = L F` the converted operator, applied to the
 rate of its kinematic variable, gives the rate of the Cauchy stress that reproduces the same Lie derivative of
@@ -182,9 +197,12 @@ theorem N1_DSIG_DF__DSIG_DDF (hc : c * c = 2) (h2 : (2:K) ≠ 0)
     (D : Nat → Nat → K) (g0 g1 g2 d0 d1 d2 : K) (l0 l1 l2 : K) (s : Nat → K) (hJ : (dg g0 g1 g2).det ≠ 0) :
     upper (lamSig ((dg d0 d1 d2) * (dg g0 g1 g2)) (M3.ofMandel c [s 0, s 1, s 2]) (dg l0 l1 l2) (M3.ofMandel c (act (Gen.N1_DSIG_DF__DSIG_DDF_r c c3 fn D (tensv (dg g0 g1 g2)) (tensv ((dg d0 d1 d2) * (dg g0 g1 g2))) s) (M3.tens1 ((dg l0 l1 l2) * ((dg d0 d1 d2) * (dg g0 g1 g2)))))))
       = upper (lamSig ((dg d0 d1 d2) * (dg g0 g1 g2)) (M3.ofMandel c [s 0, s 1, s 2]) (dg l0 l1 l2) (M3.ofMandel c (act (rowsOf D i3 i3) (M3.tens1 ((dg l0 l1 l2) * (dg d0 d1 d2)))))) := by
-  have hc0 : c ≠ 0 := c_ne_zero hc h2
-  obtain ⟨h0, h1, h2'⟩ := dg_det_ne hJ
-  c23_rat0 hc
+  have key : (act (Gen.N1_DSIG_DF__DSIG_DDF_r c c3 fn D (tensv (dg g0 g1 g2)) (tensv ((dg d0 d1 d2) * (dg g0 g1 g2))) s) (M3.tens1 ((dg l0 l1 l2) * ((dg d0 d1 d2) * (dg g0 g1 g2)))))
+      = (act (rowsOf D i3 i3) (M3.tens1 ((dg l0 l1 l2) * (dg d0 d1 d2)))) := by
+    have hc0 : c ≠ 0 := c_ne_zero hc h2
+    obtain ⟨h0, h1, h2'⟩ := dg_det_ne hJ
+    c23_rat0 hc
+  rw [key]
 
 /-- `DTAU_DDF ← DTAU_DF` (1D): along every variation `δF = L F` the converted operator, applied to the
 rate of its kinematic variable, gives the rate of the Kirchhoff stress that reproduces the same Lie derivative of
@@ -193,8 +211,11 @@ theorem N1_DTAU_DDF__DTAU_DF (hc : c * c = 2) (h2 : (2:K) ≠ 0)
     (D : Nat → Nat → K) (g0 g1 g2 d0 d1 d2 : K) (l0 l1 l2 : K) (s : Nat → K)  :
     upper (lamTau ((dg d0 d1 d2) * (dg g0 g1 g2)) (M3.ofMandel c [s 0, s 1, s 2]) (dg l0 l1 l2) (M3.ofMandel c (act (Gen.N1_DTAU_DDF__DTAU_DF_r c c3 fn D (tensv (dg g0 g1 g2)) (tensv ((dg d0 d1 d2) * (dg g0 g1 g2))) s) (M3.tens1 ((dg l0 l1 l2) * (dg d0 d1 d2))))))
       = upper (lamTau ((dg d0 d1 d2) * (dg g0 g1 g2)) (M3.ofMandel c [s 0, s 1, s 2]) (dg l0 l1 l2) (M3.ofMandel c (act (rowsOf D i3 i3) (M3.tens1 ((dg l0 l1 l2) * ((dg d0 d1 d2) * (dg g0 g1 g2))))))) := by
-  have hc0 : c ≠ 0 := c_ne_zero hc h2
-  c23_rat0 hc
+  have key : (act (Gen.N1_DTAU_DDF__DTAU_DF_r c c3 fn D (tensv (dg g0 g1 g2)) (tensv ((dg d0 d1 d2) * (dg g0 g1 g2))) s) (M3.tens1 ((dg l0 l1 l2) * (dg d0 d1 d2))))
+      = (act (rowsOf D i3 i3) (M3.tens1 ((dg l0 l1 l2) * ((dg d0 d1 d2) * (dg g0 g1 g2))))) := by
+    have hc0 : c ≠ 0 := c_ne_zero hc h2
+    c23_rat0 hc
+  rw [key]
 
 /-- `DTAU_DF ← DTAU_DDF` (1D): along every variation `δF = L F` the converted operator, applied to the
 rate of its kinematic variable, gives the rate of the Kirchhoff stress that reproduces the same Lie derivative of
@@ -203,9 +224,12 @@ theorem N1_DTAU_DF__DTAU_DDF (hc : c * c = 2) (h2 : (2:K) ≠ 0)
     (D : Nat → Nat → K) (g0 g1 g2 d0 d1 d2 : K) (l0 l1 l2 : K) (s : Nat → K) (hJ : (dg g0 g1 g2).det ≠ 0) :
     upper (lamTau ((dg d0 d1 d2) * (dg g0 g1 g2)) (M3.ofMandel c [s 0, s 1, s 2]) (dg l0 l1 l2) (M3.ofMandel c (act (Gen.N1_DTAU_DF__DTAU_DDF_r c c3 fn D (tensv (dg g0 g1 g2)) (tensv ((dg d0 d1 d2) * (dg g0 g1 g2))) s) (M3.tens1 ((dg l0 l1 l2) * ((dg d0 d1 d2) * (dg g0 g1 g2)))))))
       = upper (lamTau ((dg d0 d1 d2) * (dg g0 g1 g2)) (M3.ofMandel c [s 0, s 1, s 2]) (dg l0 l1 l2) (M3.ofMandel c (act (rowsOf D i3 i3) (M3.tens1 ((dg l0 l1 l2) * (dg d0 d1 d2)))))) := by
-  have hc0 : c ≠ 0 := c_ne_zero hc h2
-  obtain ⟨h0, h1, h2'⟩ := dg_det_ne hJ
-  c23_rat0 hc
+  have key : (act (Gen.N1_DTAU_DF__DTAU_DDF_r c c3 fn D (tensv (dg g0 g1 g2)) (tensv ((dg d0 d1 d2) * (dg g0 g1 g2))) s) (M3.tens1 ((dg l0 l1 l2) * ((dg d0 d1 d2) * (dg g0 g1 g2)))))
+      = (act (rowsOf D i3 i3) (M3.tens1 ((dg l0 l1 l2) * (dg d0 d1 d2)))) := by
+    have hc0 : c ≠ 0 := c_ne_zero hc h2
+    obtain ⟨h0, h1, h2'⟩ := dg_det_ne hJ
+    c23_rat0 hc
+  rw [key]
 
 /-- `DSIG_DF ← DTAU_DF` (1D): along every variation `δF = L F` the converted operator, applied to the
 rate of its kinematic variable, gives the rate of the Cauchy stress that reproduces the same Lie derivative of
